@@ -1,1 +1,256 @@
-/-! Property theorems for C15 (stub: not built yet). -/
+import UsualProofs.C15.Sort
+import UsualProofs.C15.HeapInv
+/-! Property theorems for C15 — hash table, binary heap, list_sort, List/StatList, SHList
+    match their abstract models.  Models: lean/Usual/C15/*.lean. -/
+namespace UsualProps.C15
+open Usual.C15 UsualProofs.C15
+
+/-! ## list_sort (usual/list.c): a stable sorted permutation, for every total preorder -/
+section SortSec
+open Usual.C15.ListSort UsualProofs.C15.Sort
+
+/-- `list_sort` returns a permutation of its input (no comparator assumptions at all) -/
+theorem sort_perm {α : Type} (le : α → α → Bool) (l : List α) : (listSort le l).Perm l :=
+  listSort_perm le l
+
+example : (listSort (fun (a b : Nat × Nat) => a.1 ≤ b.1) [(3,0),(1,1),(2,2),(1,3),(3,4),(0,5),(1,6)]).Perm
+    [(3,0),(1,1),(2,2),(1,3),(3,4),(0,5),(1,6)] := sort_perm _ _
+
+/-- `list_sort` returns a sorted list whenever `cmp(a,b) <= 0` is a total preorder -/
+theorem sort_sorted {α : Type} (le : α → α → Bool) (h : TotalPreorder le) (l : List α) :
+    (listSort le l).Pairwise (fun a b => le a b = true) :=
+  listSort_sorted le h l
+
+/-- the comparator used by the harness and in the examples: compare first components -/
+def leFst (a b : Nat × Nat) : Bool := decide (a.1 ≤ b.1)
+
+theorem leFst_preorder : TotalPreorder leFst :=
+  ⟨fun a b => by unfold leFst; simp only [decide_eq_true_eq]; omega,
+   fun a b c => by unfold leFst; simp only [decide_eq_true_eq]; omega⟩
+
+example : (listSort leFst [(3,0),(1,1),(2,2),(1,3),(3,4),(0,5),(1,6)]).Pairwise (fun a b => leFst a b = true) :=
+  sort_sorted leFst leFst_preorder _
+
+/-- `list_sort` is stable: the members of any class of mutually-≤ elements keep their input order -/
+theorem sort_stable {α : Type} (le : α → α → Bool) (h : TotalPreorder le) (c : α → Bool)
+    (hc : ∀ a b, c a = true → c b = true → le a b = true) (l : List α) :
+    (listSort le l).filter c = l.filter c :=
+  listSort_stable le h c hc l
+
+example : (listSort leFst [(3,0),(1,1),(2,2),(1,3),(3,4),(0,5),(1,6)]).filter (fun a => a.1 == 1)
+    = [(1,1),(1,3),(1,6)] := by
+  rw [sort_stable leFst leFst_preorder (fun a => a.1 == 1)
+    (fun a b ha hb => by simp only [beq_iff_eq] at ha hb; unfold leFst; simp only [decide_eq_true_eq]; omega)]
+  rfl
+
+end SortSec
+
+/-! ## binary heap (usual/heap.c) -/
+section HeapSec
+open Usual.C15.Heap UsualProofs.C15.HeapP
+
+inductive HeapOp where
+  | push (x : Nat)
+  | pop
+  | remove (i : Nat)
+  | reserve (extra : Nat)
+
+def heapStep (better : Nat → Nat → Bool) (h : Heap) : HeapOp → Heap
+  | .push x => push better h x
+  | .pop => (pop better h).1
+  | .remove i => (remove better h i).1
+  | .reserve e => reserve h e
+
+def heapRun (better : Nat → Nat → Bool) : Heap → List HeapOp → Heap
+  | h, [] => h
+  | h, op :: rest => heapRun better (heapStep better h op) rest
+
+/-- histories the API allows: a pushed pointer is non-NULL and not already in the heap -/
+def HeapValid (better : Nat → Nat → Bool) : Heap → List HeapOp → Prop
+  | _, [] => True
+  | h, op :: rest =>
+    (match op with
+     | .push x => x ≠ 0 ∧ ¬ Mem h x
+     | _ => True) ∧ HeapValid better (heapStep better h op) rest
+
+theorem heapStep_inv {better} (sw : StrictWeak better) (h : Heap) (op : HeapOp) (hi : Inv better h)
+    (hv : match op with | .push x => x ≠ 0 ∧ ¬ Mem h x | _ => True) : Inv better (heapStep better h op) := by
+  cases op with
+  | push x => exact (push_spec sw h x hi hv.1 hv.2).1
+  | pop =>
+    show Inv better (remove better h 0).1
+    by_cases hu : 0 < h.used
+    · exact (remove_spec sw h 0 hi hu).2.1
+    · rw [remove_out better h 0 (by omega)]; exact hi
+  | remove i =>
+    show Inv better (remove better h i).1
+    by_cases hu : i < h.used
+    · exact (remove_spec sw h i hi hu).2.1
+    · rw [remove_out better h i (by omega)]; exact hi
+  | reserve e => exact reserve_inv h e hi
+
+theorem init_inv (better : Nat → Nat → Bool) : Inv better Heap.init :=
+  ⟨⟨fun i j hi => by simp [Heap.init] at hi, fun i hi => by simp [Heap.init] at hi,
+    fun i hi => by simp [Heap.init] at hi⟩, fun i _ hi => by simp [Heap.init] at hi⟩
+
+theorem heapRun_inv {better} (sw : StrictWeak better) :
+    ∀ (ops : List HeapOp) (h : Heap), Inv better h → HeapValid better h ops → Inv better (heapRun better h ops)
+  | [], _, hi, _ => hi
+  | op :: rest, h, hi, hv => heapRun_inv sw rest _ (heapStep_inv sw h op hi hv.1) hv.2
+
+/-- HEAP ORDER is an invariant of every push/pop/remove/reserve history: no element is better
+    than its parent (`orderedB`, the check the driver also evaluates, is true) -/
+theorem heap_order_invariant {better} (sw : StrictWeak better) (ops : List HeapOp)
+    (hv : HeapValid better Heap.init ops) :
+    orderedB better (heapRun better Heap.init ops) = true :=
+  (orderedB_iff better _).mpr (heapRun_inv sw ops _ (init_inv better) hv).ord
+
+/-- SAVE_POS: after every history each element's last `save_pos` value is its current index -/
+theorem heap_savepos_tracks_index {better} (sw : StrictWeak better) (ops : List HeapOp)
+    (hv : HeapValid better Heap.init ops) :
+    let h := heapRun better Heap.init ops
+    ∀ i, i < h.used → h.pos.get (h.data.get i) = i :=
+  (heapRun_inv sw ops _ (init_inv better) hv).pos
+
+/-- the ordering of the harness and the examples: smaller number = better -/
+def ltNat (a b : Nat) : Bool := decide (a < b)
+theorem ltNat_sw : StrictWeak ltNat :=
+  ⟨fun a b => by unfold ltNat; simp only [decide_eq_true_eq, decide_eq_false_iff_not]; omega,
+   fun a b c => by unfold ltNat; simp only [decide_eq_false_iff_not]; omega⟩
+
+def exOps : List HeapOp := [.push 5, .push 3, .push 9, .push 1, .reserve 3, .remove 1, .push 4, .pop, .push 2]
+
+theorem exOps_valid : HeapValid ltNat Heap.init exOps := by
+  simp only [exOps, HeapValid, heapStep]
+  refine ⟨⟨by decide, ?_⟩, ⟨by decide, ?_⟩, ⟨by decide, ?_⟩, ⟨by decide, ?_⟩, trivial, trivial,
+          ⟨by decide, ?_⟩, trivial, ⟨by decide, ?_⟩, trivial⟩ <;>
+    (rw [← mem_toList]; decide)
+
+example : orderedB ltNat (heapRun ltNat Heap.init exOps) = true := heap_order_invariant ltNat_sw exOps exOps_valid
+example : toList (heapRun ltNat Heap.init exOps) = [2, 4, 9, 5] := by decide
+
+/-- POP returns a best element: it was in the heap, nothing in the heap is better, exactly it
+    leaves, and the invariant holds again -/
+theorem heap_pop_is_best {better} (sw : StrictWeak better) (h : Heap) (hi : Inv better h) (hu : 0 < h.used) :
+    Mem h (pop better h).2 ∧ (pop better h).2 ≠ 0 ∧ (∀ y, Mem h y → better y (pop better h).2 = false) ∧
+    (∀ y, Mem (pop better h).1 y ↔ (Mem h y ∧ y ≠ (pop better h).2)) ∧
+    (pop better h).1.used = h.used - 1 ∧ Inv better (pop better h).1 := by
+  obtain ⟨e, i', u', m'⟩ := remove_spec sw h 0 hi hu
+  unfold pop
+  refine ⟨by rw [e]; exact ⟨0, hu, rfl⟩, by rw [e]; exact hi.nz 0 hu, ?_, by rw [e]; exact m', u', i'⟩
+  rintro y ⟨a, ha, rfl⟩
+  rw [e]
+  exact root_best sw h.data h.used hi.ord a ha
+
+/-- POP / TOP on the empty heap: NULL, nothing changes -/
+theorem heap_pop_empty (better : Nat → Nat → Bool) (h : Heap) (hu : h.used = 0) :
+    pop better h = (h, 0) ∧ top h = 0 := by
+  refine ⟨remove_out better h 0 (by omega), ?_⟩
+  unfold top; rw [if_neg (by omega)]
+
+/-- `heap_top` is the element `heap_pop` would return -/
+theorem heap_top_eq_pop {better} (sw : StrictWeak better) (h : Heap) (hi : Inv better h) (hu : 0 < h.used) :
+    top h = (pop better h).2 := by
+  unfold top pop; rw [if_pos hu, (remove_spec sw h 0 hi hu).1]
+
+example : (pop ltNat (heapRun ltNat Heap.init exOps)).2 = 2 := by decide
+
+/-- REMOVE(i) removes exactly the element at index `i` (`heap_get_obj(h, i)`): it is returned,
+    it leaves, every other element stays, the invariant holds again -/
+theorem heap_remove_exact {better} (sw : StrictWeak better) (h : Heap) (i : Nat) (hi : Inv better h)
+    (hu : i < h.used) :
+    (remove better h i).2 = getObj h i ∧ getObj h i ≠ 0 ∧
+    (∀ y, Mem (remove better h i).1 y ↔ (Mem h y ∧ y ≠ getObj h i)) ∧
+    (remove better h i).1.used = h.used - 1 ∧ Inv better (remove better h i).1 := by
+  obtain ⟨e, i', u', m'⟩ := remove_spec sw h i hi hu
+  have g : getObj h i = h.data.get i := by unfold getObj; rw [if_pos hu]
+  rw [g]
+  exact ⟨e, hi.nz i hu, m', u', i'⟩
+
+/-- REMOVE(i) with `i` outside the heap: NULL, nothing changes -/
+theorem heap_remove_out (better : Nat → Nat → Bool) (h : Heap) (i : Nat) (hu : h.used ≤ i) :
+    remove better h i = (h, 0) ∧ getObj h i = 0 := by
+  refine ⟨remove_out better h i hu, ?_⟩
+  unfold getObj; rw [if_neg (by omega)]
+
+example : (remove ltNat (heapRun ltNat Heap.init exOps) 2).2 = 9 ∧
+    toList (remove ltNat (heapRun ltNat Heap.init exOps) 2).1 = [2, 4, 5] := by decide
+
+/-- PUSH adds exactly the new element -/
+theorem heap_push_adds {better} (sw : StrictWeak better) (h : Heap) (x : Nat) (hi : Inv better h)
+    (hx0 : x ≠ 0) (hfresh : ¬ Mem h x) :
+    (∀ y, Mem (push better h x) y ↔ (y = x ∨ Mem h y)) ∧ (push better h x).used = h.used + 1 ∧
+    Inv better (push better h x) := by
+  obtain ⟨a, b, c⟩ := push_spec sw h x hi hx0 hfresh
+  exact ⟨c, b, a⟩
+
+example : toList (push ltNat (heapRun ltNat Heap.init exOps) 1) = [1, 2, 9, 5, 4] := by decide
+
+/-- REFINEMENT to a multiset: the contents of the heap, as a list up to permutation, follow
+    the specification `push x ↦ x :: S`, `pop/remove ↦ S.erase (returned element)` along every
+    valid history (`specRun` replays the history on a plain list using the values returned) -/
+def specStep (better : Nat → Nat → Bool) (h : Heap) (S : List Nat) : HeapOp → List Nat
+  | .push x => x :: S
+  | .pop => S.erase (pop better h).2
+  | .remove i => S.erase (remove better h i).2
+  | .reserve _ => S
+
+def specRun (better : Nat → Nat → Bool) : Heap → List Nat → List HeapOp → List Nat
+  | _, S, [] => S
+  | h, S, op :: rest => specRun better (heapStep better h op) (specStep better h S op) rest
+
+theorem heapStep_refines {better} (sw : StrictWeak better) (h : Heap) (S : List Nat) (op : HeapOp)
+    (hi : Inv better h) (hp : (toList h).Perm S)
+    (hv : match op with | .push x => x ≠ 0 ∧ ¬ Mem h x | _ => True) :
+    (toList (heapStep better h op)).Perm (specStep better h S op) := by
+  have hi' := heapStep_inv sw h op hi hv
+  have nd : S.Nodup := hp.nodup_iff.mp (toList_nodup h hi.toCore)
+  have ms : ∀ y, y ∈ S ↔ Mem h y := fun y => (hp.mem_iff (a := y)).symm.trans (mem_toList h y)
+  have rm : ∀ i, (toList (remove better h i).1).Perm (S.erase (remove better h i).2) := by
+    intro i
+    by_cases hu : i < h.used
+    · obtain ⟨e, i2, _, m2⟩ := remove_spec sw h i hi hu
+      rw [List.perm_ext_iff_of_nodup (toList_nodup _ i2.toCore) (nd.erase _)]
+      intro y
+      rw [mem_toList, m2 y, nd.mem_erase_iff, ms y, e]
+      exact And.comm
+    · rw [remove_out better h i (by omega)]
+      rw [List.erase_of_not_mem]
+      · exact hp
+      · rw [ms]; rintro ⟨a, ha, e⟩; exact hi.nz a ha e
+  cases op with
+  | push x =>
+    obtain ⟨_, _, m2⟩ := push_spec sw h x hi hv.1 hv.2
+    have ndx : (x :: S).Nodup := List.nodup_cons.mpr ⟨by rw [ms]; exact hv.2, nd⟩
+    show (toList (push better h x)).Perm (x :: S)
+    refine (List.perm_ext_iff_of_nodup (toList_nodup (push better h x) hi'.toCore) ndx).mpr ?_
+    intro y
+    rw [mem_toList, m2 y, List.mem_cons, ms y]
+  | pop => exact rm 0
+  | remove i => exact rm i
+  | reserve e =>
+    show (toList (reserve h e)).Perm S
+    have := reserve_same h e
+    unfold toList; rw [this.1, this.2.1]; exact hp
+
+theorem heap_refines_multiset {better} (sw : StrictWeak better) :
+    ∀ (ops : List HeapOp) (h : Heap) (S : List Nat), Inv better h → (toList h).Perm S →
+      HeapValid better h ops → (toList (heapRun better h ops)).Perm (specRun better h S ops)
+  | [], _, _, _, hp, _ => hp
+  | op :: rest, h, S, hi, hp, hv =>
+    heap_refines_multiset sw rest _ _ (heapStep_inv sw h op hi hv.1) (heapStep_refines sw h S op hi hp hv.1) hv.2
+
+example : (toList (heapRun ltNat Heap.init exOps)).Perm (specRun ltNat Heap.init [] exOps) :=
+  heap_refines_multiset ltNat_sw exOps _ _ (init_inv ltNat) (List.Perm.refl _) exOps_valid
+
+/-- `heap_reserve(h, extra)` leaves the contents alone and makes room for `extra` pushes -/
+theorem heap_reserve_spec (h : Heap) (extra : Nat) :
+    toList (reserve h extra) = toList h ∧ h.used + extra ≤ (reserve h extra).allocated := by
+  have := reserve_same h extra
+  exact ⟨by unfold toList; rw [this.1, this.2.1], reserve_room h extra⟩
+
+example : (reserve (heapRun ltNat Heap.init exOps) 100).allocated = 104 := by decide
+
+end HeapSec
+
+end UsualProps.C15
